@@ -193,6 +193,20 @@ func (p *IdentityProvider) ssoHandleFunc(w http.ResponseWriter, r *http.Request)
 		},
 	)
 
+	// a request whose answer can not be delivered is refused before it is persisted
+	checkerInstance.WithLogicStep(
+		func() error {
+			switch response.ProtocolBinding {
+			case RedirectBinding, PostBinding:
+				return nil
+			}
+			return fmt.Errorf("unsupported binding: %s", response.ProtocolBinding)
+		},
+		func() {
+			response.sendBackResponse(r, w, response.makeFailedResponse(StatusCodeUnsupportedBinding, fmt.Errorf("unsupported binding: %s", response.ProtocolBinding).Error(), p.TimeFormat))
+		},
+	)
+
 	checkerInstance.WithLogicStep(
 		checkRequestRequiredContent(
 			func() *md.IDPSSODescriptorType { return metadata },
